@@ -785,6 +785,7 @@ func scenarioDocShapes(c *vrun.Ctx) {
 	var tree map[string]any
 	json.Unmarshal(raw, &tree)
 	var sections, props []string
+	jsonType := map[string]string{} // the JSON type each known position takes
 	var walk func(m map[string]any, prefix string)
 	walk = func(m map[string]any, prefix string) {
 		keys := make([]string, 0, len(m))
@@ -802,10 +803,21 @@ func scenarioDocShapes(c *vrun.Ctx) {
 				walk(sub, p)
 			} else {
 				props = append(props, p)
+				switch m[k].(type) {
+				case bool:
+					jsonType[p] = "bool"
+				case float64:
+					jsonType[p] = "number"
+				case string:
+					jsonType[p] = "string"
+				}
 			}
 		}
 	}
 	walk(tree, "")
+	for _, s := range sections {
+		jsonType[s] = "object"
+	}
 	var positions []string
 	positions = append(positions, sections...)
 	positions = append(positions, props...)
@@ -844,6 +856,12 @@ func scenarioDocShapes(c *vrun.Ctx) {
 				c.SetCase(desc)
 				c.Violation("C16/config/update-panics/"+shapeClass(sh)+"/"+positionClass(pos, sections), fmt.Sprintf("UpdatePartialFromConfig panics for the document {%s}: %v %s %s", desc, pan, ex.Status, ex.PanicVal), nil)
 				continue
+			}
+			if want, known := jsonType[pos]; known && uerr == nil && shapeClass(sh) != want {
+				// "a rejected or failed update (ill-typed value, ...)": a value of the wrong JSON type is rejected,
+				// not taken for the zero value or silently dropped
+				c.SetCase(desc)
+				c.Violation("C18/config/ill-typed-value-accepted/"+shapeClass(sh)+"-for-"+want, fmt.Sprintf("the document {%s} was accepted although %s takes a JSON %s; it changed %v", desc, pos, want, diffSnap(before, after)), nil)
 			}
 			if uerr != nil {
 				if d := diffSnap(before, after); len(d) > 0 || string(fileBefore) != string(fileAfter) {
